@@ -35,7 +35,10 @@ Script G;
 const char *impl_name() { return "verif-scripted"; }
 uint32_t impl_random() { G.random_calls++; uint32_t v = 0; for (int i = 0; i < 4; i++) v |= (uint32_t) G.at(G.pos + i) << (8 * i); G.pos += 4; G.requests.push_back(4); return v; }
 void impl_buf(void *p, size_t n) { uint8_t *b = (uint8_t *) p; for (size_t i = 0; i < n; i++) b[i] = G.at(G.pos + i); G.pos += n; G.requests.push_back(n); }
-randombytes_implementation IMPL = { impl_name, impl_random, nullptr, nullptr, impl_buf, nullptr };
+uint64_t g_stirs = 0, g_closes = 0;
+void impl_stir() { g_stirs++; }
+int impl_close() { g_closes++; return 0; }
+randombytes_implementation IMPL = { impl_name, impl_random, impl_stir, nullptr, impl_buf, impl_close };
 
 void init_once() {
     static bool done = false;
@@ -211,15 +214,28 @@ std::vector<Gen> &gens() {
 }
 
 struct GenCase {
-    int g; uint64_t seed; Bytes prefix; size_t perturb;
-    KV kv() const { KV k; k.s("kind", "gen").s("api", gens()[g].name).u("seed", seed).b("prefix", prefix).u("perturb", perturb); return k; }
+    int g; uint64_t seed; Bytes prefix; size_t perturb; int pre = 0;   // pre: source life-cycle calls made before generating (0 none, 1 stir, 2 close, 3 close+stir, 4 stir+close+close)
+    KV kv() const { KV k; k.s("kind", "gen").s("api", gens()[g].name).u("seed", seed).b("prefix", prefix).u("perturb", perturb).u("pre", pre); return k; }
 };
+// the source stays installed across randombytes_stir() / randombytes_close(): whatever is generated afterwards must still come from it
+void lifecycle(int pre) {
+    switch (pre) {
+    case 1: randombytes_stir(); break;
+    case 2: (void) randombytes_close(); break;
+    case 3: (void) randombytes_close(); randombytes_stir(); break;
+    case 4: randombytes_stir(); (void) randombytes_close(); (void) randombytes_close(); break;
+    default: break;
+    }
+}
 bool contains(const Bytes &hay, const Bytes &needle) { return std::search(hay.begin(), hay.end(), needle.begin(), needle.end()) != hay.end(); }
 
 bool run_gen(const GenCase &c, std::string &msg) {
     init_once(); set_mask(F_ALL);
     const Gen &g = gens()[c.g];
     G = Script(); G.seed = c.seed; G.prefix = c.prefix; G.reset();
+    lifecycle(c.pre);
+    if (std::string(randombytes_implementation_name()) != "verif-scripted") { msg = std::string("after stir/close (pre=") + std::to_string(c.pre) + ") the installed source is no longer the one in use: " + randombytes_implementation_name(); randombytes_set_implementation(&IMPL); return false; }
+    G.reset();
     Bytes out1 = g.call();
     size_t requested = G.pos;
     Script used = G;
@@ -276,7 +292,8 @@ void explore_gen(Ctx &ctx) {
             if (nm.find("ristretto255_random") != std::string::npos) { size_t j = pert % 64, bit = pert % 8; if ((j == 31 || j == 63) && bit == 7) pert = 8 * 5 + 3; }   // RFC 9496: the top bit of each half is masked
             if (!ctx.mine(idx++)) continue;
             GenCase c{ (int) gi, seed, prefix, pert };
-            exec_case(ctx, c, run_gen, mix64(mix64(gi, seed), prefix.size()), true);
+            c.pre = (i % 4 == 3) ? 1 + (int) ((i / 4) % 4) : 0;
+            exec_case(ctx, c, run_gen, mix64(mix64(gi, seed), mix64(prefix.size(), c.pre)), true);
         }
     }
 }
@@ -287,7 +304,7 @@ bool replay(const KV &k, std::string &msg) {
     GenCase c; c.g = -1;
     for (size_t i = 0; i < gens().size(); i++) if (k.gs("api") == gens()[i].name) c.g = (int) i;
     if (c.g < 0) { msg = "unknown api"; return false; }
-    c.seed = k.gu("seed"); c.prefix = k.gb("prefix"); c.perturb = (size_t) k.gu("perturb");
+    c.seed = k.gu("seed"); c.prefix = k.gb("prefix"); c.perturb = (size_t) k.gu("perturb"); c.pre = k.has("pre") ? (int) k.gu("pre") : 0;
     return run_gen(c, msg);
 }
 
